@@ -163,7 +163,96 @@ fn case_json(kind: &str, hist: &[Op], cfg: &Cfg, k: Option<u64>) -> Value {
     json!({"kind": kind, "history": hist.iter().map(|o| o.to_json()).collect::<Vec<_>>(), "cfg": {"cache": cfg.cache, "flush_ms": cfg.flush_ms, "mode": cfg.mode, "compression": cfg.compression, "depth": cfg.depth}, "k": k})
 }
 
+/// keys of the adapter-as-a-map exploration: all zero, all ones, and for every byte position the keys that differ from
+/// all-zero in that byte only (values 1 and 0x80), plus keys equal in their low 1, 2, 4 bytes and different above
+fn map_keys() -> Vec<[u8; 8]> {
+    let mut v: Vec<[u8; 8]> = vec![[0; 8], [0xff; 8]];
+    for b in 0..8 {
+        for x in [1u8, 0x80] {
+            let mut k = [0u8; 8];
+            k[b] = x;
+            v.push(k);
+        }
+    }
+    // (pmtree's node keys are 8-byte big-endian numbers: these are node numbers 2^32 + 5, 5, 2^16 + 5, 2^40 + 5)
+    for n in [(1u64 << 32) + 5, 5, (1 << 16) + 5, (1 << 40) + 5, (1 << 32) + (1 << 16) + 5] {
+        v.push(n.to_be_bytes());
+        v.push(n.to_le_bytes());
+    }
+    v.sort();
+    v.dedup();
+    v
+}
+
 impl C16 {
+    /// (0) the storage adapter is a map: after single and batch writes of distinct values under the exploration keys
+    /// (any order, any split between single and batch writes) every key reads back its own last value, also after flush
+    /// and reopen; a key never written reads as absent
+    fn adapter_map(&self, order: usize, split: usize) -> Vec<Discrepancy> {
+        use zerokit_utils::pm_tree::pmtree::Database;
+        use zerokit_utils::pm_tree::SledDB;
+        let case = json!({"kind": "adapter-map", "order": order, "split": split});
+        let mut out = vec![];
+        let path = scratch_dir("c16m");
+        let r = guard(|| -> Result<Vec<String>, String> {
+            fault::disarm();
+            let mut bad = vec![];
+            let mut keys = map_keys();
+            match order {
+                1 => keys.reverse(),
+                2 => { let n = keys.len(); keys.rotate_left(n / 2); }
+                _ => {}
+            }
+            let mk = || -> Result<zerokit_utils::pm_tree::Config, String> { Ok(zerokit_utils::pm_tree::Config::new().temporary(false).path(&path).cache_capacity(1 << 20)) };
+            let mut db = SledDB::new(mk()?).map_err(|e| format!("{e:?}"))?;
+            let val = |k: &[u8; 8], gen: u8| -> Vec<u8> { let mut v = k.to_vec(); v.push(gen); v.extend_from_slice(b"value"); v };
+            // first generation: keys [..split] one by one, the rest as one batch
+            for k in keys.iter().take(split) {
+                db.put(*k, val(k, 1)).map_err(|e| format!("{e:?}"))?;
+            }
+            let batch: std::collections::HashMap<[u8; 8], Vec<u8>> = keys.iter().skip(split).map(|k| (*k, val(k, 1))).collect();
+            if !batch.is_empty() {
+                db.put_batch(batch).map_err(|e| format!("{e:?}"))?;
+            }
+            let never = [0x55u8; 8];
+            let check = |db: &SledDB, gen_of: &dyn Fn(usize) -> u8, when: &str, bad: &mut Vec<String>| {
+                for (i, k) in keys.iter().enumerate() {
+                    match db.get(*k) {
+                        Ok(Some(v)) if v == val(k, gen_of(i)) => {}
+                        Ok(other) => bad.push(format!("{when}: key {} reads {:?}, its own value was written last", hex(k), other.map(|v| hex(&v)))),
+                        Err(e) => bad.push(format!("{when}: key {}: {e:?}", hex(k))),
+                    }
+                }
+                if !matches!(db.get(never), Ok(None)) {
+                    bad.push(format!("{when}: a key that was never written is present"));
+                }
+            };
+            check(&db, &|_| 1, "after the first writes", &mut bad);
+            // second generation for every other key (single writes), then flush and reopen
+            for (i, k) in keys.iter().enumerate() {
+                if i % 2 == 0 {
+                    db.put(*k, val(k, 2)).map_err(|e| format!("{e:?}"))?;
+                }
+            }
+            check(&db, &|i| if i % 2 == 0 { 2 } else { 1 }, "after overwriting every other key", &mut bad);
+            db.close().map_err(|e| format!("{e:?}"))?;
+            drop(db);
+            let db2 = SledDB::load(mk()?).map_err(|e| format!("reopen: {e:?}"))?;
+            check(&db2, &|i| if i % 2 == 0 { 2 } else { 1 }, "after flush and reopen", &mut bad);
+            Ok(bad)
+        });
+        let _ = std::fs::remove_dir_all(&path);
+        match r {
+            Err(pn) => out.push(Discrepancy { key: "C16/adapter-map/panic".into(), case, detail: pn }),
+            Ok(Err(e)) => out.push(Discrepancy { key: "C16/adapter-map/error".into(), case, detail: e }),
+            Ok(Ok(bad)) => {
+                if let Some(b) = bad.first() {
+                    out.push(Discrepancy { key: "C16/adapter-map/wrong-value".into(), case, detail: format!("{b} ({} mismatches)", bad.len()) });
+                }
+            }
+        }
+        out
+    }
     /// (1b) no fault: history, flush, drop, then a tree of ANOTHER depth is requested at the same location.
     /// Refusing is fine; if a tree is handed back it must be the stored one (same root, leaves, leaf
     /// count, metadata): the location holds acknowledged updates.
@@ -657,6 +746,7 @@ impl Prop for C16 {
         let hist: Vec<Op> = case["history"].as_array().map(|a| a.iter().filter_map(Op::from_json).collect()).unwrap_or_default();
         let cfg = cfg_from(&case["cfg"]);
         match case["kind"].as_str().unwrap_or("") {
+            "adapter-map" => self.adapter_map(case["order"].as_u64().unwrap_or(0) as usize, case["split"].as_u64().unwrap_or(0) as usize),
             "reopen" => self.reopen(&hist, &cfg).0,
             "reopen-other-depth" => self.reopen_other_depth(&hist, &cfg, case["requested_depth"].as_u64().unwrap_or(4) as usize),
             "fault" => self.faulted(&hist, &cfg, case["k"].as_u64().unwrap_or(0)),
@@ -673,6 +763,15 @@ impl Prop for C16 {
         let base = Cfg::default_cfg();
         // (1) no-fault reopen for every history, measuring W(h)
         let r1 = par_map(&hs, ncpu(), |_, h| self.reopen(h, &base));
+        // (0) the adapter as a map
+        let nkeys = map_keys().len();
+        let mitems: Vec<(usize, usize)> = (0..3usize).flat_map(|o| [0usize, 1, nkeys / 2, nkeys - 1, nkeys].into_iter().map(move |sp| (o, sp))).collect();
+        let rm = par_map(&mitems, ncpu(), |_, (o, sp)| self.adapter_map(*o, *sp));
+        for o in rm {
+            findings.report_all(o);
+        }
+        ev.set("adapter_as_map_runs", json!(mitems.len()));
+        ev.set("adapter_as_map_keys", json!(nkeys));
         let ditems: Vec<(usize, usize)> = (0..hs.len()).flat_map(|i| [base.depth - 1, base.depth + 1].into_iter().map(move |d| (i, d))).collect();
         let rd = par_map(&ditems, ncpu(), |_, (i, d)| self.reopen_other_depth(&hs[*i], &base, *d));
         let n_other_depth = ditems.len();
@@ -829,7 +928,7 @@ impl Prop for C16 {
         ev.set("compression_available", json!(comp_ok));
         ev.set("max_storage_ops_per_history", json!(ws.iter().max().cloned().unwrap_or(0)));
         ev.set("exhaustive", json!(true));
-        ev.set("rule", json!("histories: every sequence of length <= L (3 quick / 4 thorough) over {set(0,a), set(5,b), delete(0), append(a), write_range(2,[a,b]), batch(0,[b],{0}), batch(remove {0,2}), set_metadata, flush} on a persistent tree of depth 3; (1) each history + flush + drop + reopen must give root, leaves, leaf count and metadata of the ideal tree, and four further operations on the reopened tree must follow the ideal tree; the same with a tree of depth 2 or 4 requested at the location (refusal, or the stored tree unchanged); a spread of histories under every storage configuration; (2) for each history the number W of storage operations is measured by a dry run and for every k < W the k-th operation is made to fail: the tree operation in progress must return Err, then flush, drop, reopen must show every acknowledged update outside the failed operation's targets; the same at depth 20 for histories of length <= 1 (quick) / 2 (thorough) over positions 0, 2^19, 2^20-1 (about 20 storage writes per operation); faults during creation; reopening while the previous instance still holds the storage lock for {0,3,25,120} ms; (3) crash points: for every history up to length 2 (quick, plus every [w1, flush, w2]) / 3 (thorough) followed by [flush, write] a child process runs it, records each acknowledged operation in a side file and aborts at the k-th storage operation, for every k; after recovery everything acknowledged up to the last acknowledged flush must be there; distinct_nontrivial = distinct (history, k) fault positions + crash points"));
+        ev.set("rule", json!("histories: every sequence of length <= L (3 quick / 4 thorough) over {set(0,a), set(5,b), delete(0), append(a), write_range(2,[a,b]), batch(0,[b],{0}), batch(remove {0,2}), set_metadata, flush} on a persistent tree of depth 3; (0) the storage adapter as a map: distinct values under 30-odd 8-byte keys that differ in exactly one byte or agree in their low 1 / 2 / 4 bytes, written singly and in one batch (5 splits x 3 orders), read back after writing, after overwriting every other key, and after flush + reopen; (1) each history + flush + drop + reopen must give root, leaves, leaf count and metadata of the ideal tree, and four further operations on the reopened tree must follow the ideal tree; the same with a tree of depth 2 or 4 requested at the location (refusal, or the stored tree unchanged); a spread of histories under every storage configuration; (2) for each history the number W of storage operations is measured by a dry run and for every k < W the k-th operation is made to fail: the tree operation in progress must return Err, then flush, drop, reopen must show every acknowledged update outside the failed operation's targets; the same at depth 20 for histories of length <= 1 (quick) / 2 (thorough) over positions 0, 2^19, 2^20-1 (about 20 storage writes per operation); faults during creation; reopening while the previous instance still holds the storage lock for {0,3,25,120} ms; (3) crash points: for every history up to length 2 (quick, plus every [w1, flush, w2]) / 3 (thorough) followed by [flush, write] a child process runs it, records each acknowledged operation in a side file and aborts at the k-th storage operation, for every k; after recovery everything acknowledged up to the last acknowledged flush must be there; distinct_nontrivial = distinct (history, k) fault positions + crash points"));
         if let Some((i, k)) = fitems.get(fitems.len() / 2) {
             ev.sample(case_json("fault", &hs[*i], &base, Some(*k)));
         }
